@@ -78,6 +78,16 @@ fn matcher(ins: &[POp], outs: &[PathOp], i: usize, o: usize, cursor: Option<P2>,
                 _ => unreachable!(),
             };
             let _ = c1;
+            // the vertices are f32: far from the origin they are only known to a few ulps of the
+            // curve's own coordinates (nothing for the curves of the usual alphabets)
+            let mag = match ins[i] {
+                POp::Q(cx, cy, x, y) => [cx, cy, x, y].iter().fold(0.0f32, |m, v| m.max(v.abs())),
+                POp::C(ax, ay, bx, by, x, y) => [ax, ay, bx, by, x, y].iter().fold(0.0f32, |m, v| m.max(v.abs())),
+                _ => 0.0,
+            }
+            .max(curve.start().0.abs() as f32)
+            .max(curve.start().1.abs() as f32);
+            let ua = 4.0 * f32::EPSILON as f64 * mag as f64;
             // candidate run lengths: output LineTos up to one that is bit-equal to the end point
             let mut best_err: Option<Fail> = None;
             let mut k = 0;
@@ -103,7 +113,7 @@ fn matcher(ins: &[POp], outs: &[PathOp], i: usize, o: usize, cursor: Option<P2>,
                     for s in curve.sample(64) {
                         dev = dev.max(dist_polyline(s, emitted));
                     }
-                    if dev > 8.0 * tol + 1e-4 * unit() {
+                    if dev > 8.0 * tol + 1e-4 * unit() + ua {
                         let e = Fail { clause: "deviation-exceeds-8x-tolerance", detail: format!("input op {} ({:?}) from start ({},{}): polyline of {} segment(s) deviates {:.4} from the curve, tolerance {}", i, ins[i], curve.start().0, curve.start().1, k, dev, tol), depth: i };
                         if best_err.as_ref().map_or(true, |b| b.depth <= e.depth) {
                             best_err = Some(e);
@@ -124,8 +134,8 @@ fn matcher(ins: &[POp], outs: &[PathOp], i: usize, o: usize, cursor: Option<P2>,
                     }
                 }
                 // as an interior vertex it must lie on the curve at a non-decreasing parameter
-                let (d, t) = curve.first_hit(pp, tprev, 2e-3 * unit());
-                if d > 2e-3 * unit() {
+                let (d, t) = curve.first_hit(pp, tprev, 2e-3 * unit() + ua);
+                if d > 2e-3 * unit() + ua {
                     let e = Fail { clause: "vertex-not-on-curve", detail: format!("input op {} ({:?}) with model start point ({},{}): emitted vertex ({},{}) is {:.4} away from the curve (at or after parameter {:.3})", i, ins[i], curve.start().0, curve.start().1, p.x, p.y, d, tprev), depth: i };
                     return Err(best_err.filter(|b| b.depth >= e.depth).unwrap_or(e));
                 }
@@ -387,9 +397,13 @@ impl Check for C16 {
                 PathSpec::new(vec![POp::M(0.0, 0.0), POp::C(1000.0, 2250.0, 2000.0, 2250.0, 3000.0, 10.0)]),
                 PathSpec::new(vec![POp::M(-3000.0, 100.0), POp::Q(0.0, 3900.0, 3000.0, 100.0), POp::Z, POp::C(-2000.0, -3000.0, 1500.0, 2000.0, 3500.0, -3000.0)]),
                 PathSpec::new(vec![POp::Q(300.0, 700.0, 650.0, 20.0), POp::L(10.0, 10.0)]),
+                // curves of very different magnitudes in one path: the tolerance of one curve owes
+                // nothing to the coordinates of another
+                PathSpec::new(vec![POp::M(30000.0, 30000.0), POp::C(30010.0, 30000.0, 30020.0, 30010.0, 30030.0, 30000.0), POp::M(0.0, 0.0), POp::Q(10.0, 20.0, 20.0, 0.0)]),
+                PathSpec::new(vec![POp::M(1.0e6, 0.0), POp::Q(1.0e6 + 5.0, 10.0, 1.0e6 + 10.0, 0.0), POp::M(3.0, 4.0), POp::Q(10.0, 20.0, 20.0, 0.0), POp::Z, POp::C(1.0, 9.0, 9.0, 9.0, 9.0, 1.0)]),
             ];
-            let btols: Vec<f32> = if q { vec![0.002, 0.05] } else { vec![0.001, 0.002, 0.01, 0.05, 1.0] };
-            run.bound("large curves at fine tolerances", format!("{} paths with curves 600-6000 units across x tolerances {:?}", big.len(), btols));
+            let btols: Vec<f32> = if q { vec![0.002, 0.05, 0.0001, f32::INFINITY] } else { vec![0.001, 0.002, 0.01, 0.05, 1.0, 0.0001, f32::INFINITY, f32::MAX] };
+            run.bound("large curves at fine tolerances", format!("{} paths (curves 600-6000 units across; curves 3e4 / 1e6 away followed by curves near the origin) x tolerances {:?}", big.len(), btols));
             run.par(big.len() * btols.len(), |s, l| {
                 let p = &big[s / btols.len()];
                 let tol = btols[s % btols.len()];
